@@ -196,9 +196,13 @@ fn div_rem(mut u: BigUint, mut d: BigUint) -> (BigUint, BigUint) {
     let shift = d.data.last().unwrap().leading_zeros() as usize;
 
     if shift == 0 {
+        #[cfg(num_bigint_verif)]
+        crate::verif_probe::hit(27);
         // no need to clone d
         div_rem_core(u, &d.data)
     } else {
+        #[cfg(num_bigint_verif)]
+        crate::verif_probe::hit(28);
         let (q, r) = div_rem_core(u << shift, &(d << shift).data);
         // renormalize the remainder
         (q, r >> shift)
@@ -238,9 +242,13 @@ pub(super) fn div_rem_ref(u: &BigUint, d: &BigUint) -> (BigUint, BigUint) {
     let shift = d.data.last().unwrap().leading_zeros() as usize;
 
     if shift == 0 {
+        #[cfg(num_bigint_verif)]
+        crate::verif_probe::hit(27);
         // no need to clone d
         div_rem_core(u.clone(), &d.data)
     } else {
+        #[cfg(num_bigint_verif)]
+        crate::verif_probe::hit(28);
         let (q, r) = div_rem_core(u << shift, &(d << shift).data);
         // renormalize the remainder
         (q, r >> shift)
@@ -295,6 +303,8 @@ fn div_rem_core(mut a: BigUint, b: &[BigDigit]) -> (BigUint, BigUint) {
             (q0, r as DoubleBigDigit)
         } else {
             debug_assert!(a0 == b0);
+            #[cfg(num_bigint_verif)]
+            crate::verif_probe::hit(25);
             // Avoid overflowing q0, we know the quotient fits in BigDigit.
             // [a1,a0] = b0 * (1<<BITS - 1) + (a0 + a1)
             (big_digit::MAX, a0 as DoubleBigDigit + a1 as DoubleBigDigit)
@@ -312,6 +322,8 @@ fn div_rem_core(mut a: BigUint, b: &[BigDigit]) -> (BigUint, BigUint) {
             && big_digit::to_doublebigdigit(r as BigDigit, a2)
                 < q0 as DoubleBigDigit * b1 as DoubleBigDigit
         {
+            #[cfg(num_bigint_verif)]
+            crate::verif_probe::hit(24);
             q0 -= 1;
             r += b0 as DoubleBigDigit;
         }
@@ -321,6 +333,8 @@ fn div_rem_core(mut a: BigUint, b: &[BigDigit]) -> (BigUint, BigUint) {
 
         let mut borrow = sub_mul_digit_same_len(&mut a.data[j..], b, q0);
         if borrow > a0 {
+            #[cfg(num_bigint_verif)]
+            crate::verif_probe::hit(26);
             // q0 is too large. We need to add back one multiple of b.
             q0 -= 1;
             borrow -= __add2(&mut a.data[j..], b);
